@@ -58,17 +58,22 @@ def make_chaos(world, b):
                     u = r.random()
                     if u < 0.5:
                         continue  # keep the earlier decision
+                # children of a conditional that has not completed are only placed or left
+                # alone: cancelling/dropping one zeroes its probability and the conditional's
+                # probability check then refuses the graph (a precondition, not a fault)
+                cond_child = any(p_.conditional and not p_.is_complete()
+                                 for p_ in workload.get_task_graph(t.task_graph).get_parents(t))
                 u = r.random()
                 if u < pol.get("p_omit", 0):
                     self._n("omit")
                     continue
                 u = r.random()
-                if u < pol.get("p_cancel", 0):
+                if u < pol.get("p_cancel", 0) and not cond_child:
                     out.append(Placement.create_task_cancellation(task=t))
                     self._n("cancel")
                     continue
                 u = r.random()
-                if u < pol.get("p_skip", 0):
+                if u < pol.get("p_skip", 0) and not (cond_child and world["flags"]["drop_skipped_tasks"]):
                     out.append(Placement.create_task_placement(task=t))
                     self._n("skip" if st != "SCHEDULED" else "retract")
                     continue
